@@ -35,7 +35,22 @@ func wAll() map[string]int {
 
 func baseProfile() *Profile {
 	return &Profile{MinTasks: 2, MaxTasks: 4, MinOps: 2, MaxOps: 6, InitMax: 6, Logs: true, AutoP: 0.5, HandlesPerTask: 3,
-		RefsPerTxn: [2]int{0, 3}, LogsPerTxn: [2]int{0, 2}, SkipNameCheckP: 0.3, W: wAll(), MultiSpan: true}
+		RefsPerTxn: [2]int{0, 3}, LogsPerTxn: [2]int{0, 2}, SkipNameCheckP: 0.3, W: wAll(), MultiSpan: true, DeepInitP: 0.04}
+}
+
+// stormProfile: 3-4 processes compacting short, mostly disjoint ranges of a
+// deep stack at the same time (overlapping unlocked windows, list shifts
+// below and above a compaction in progress), few Adds.
+func stormProfile() *Profile {
+	p := baseProfile()
+	p.MinTasks, p.MaxTasks = 3, 4
+	p.MinOps, p.MaxOps = 2, 5
+	p.InitMin, p.InitMax = 6, 14
+	p.DeepInitP = 0
+	p.AutoP = 0.1
+	p.ShortRangesP = 0.85
+	p.W = map[string]int{OpCompactRange: 12, OpAdd: 3, OpAutoCompact: 1, OpCompactAll: 1, OpClean: 1, OpRead: 1}
+	return p
 }
 
 func probeAny(r *RunResult, names ...string) bool {
@@ -132,6 +147,7 @@ func Plans() map[string]*Plan {
 				{Name: "S-CRASH-ENUM", Quick: 500, Thorough: 50000, Gen: func(seed uint64) *RunSpec { return GenCrashEnum("C05", seed) }, Exec: ExecCrashEnum},
 				ioEnumPart("C05", 300, 30000),
 				ioConcPart("C05", 6000, 600000, p, RunOpts{}),
+				concPart("C05", "S-CONC/compaction-storm", 8000, 800000, stormProfile(), RunOpts{}),
 			},
 			Rule:       "S-CONC, S-CRASH-RAND and S-CRASH-ENUM (every crash point of sampled operation instances, as in C06); list-integrity checked after every mutating filesystem call of every process and after every crash; non-trivial = >=3 schedule segments and >=2 list versions; distinct = distinct projected event-sequence hash",
 			Nontrivial: concNontrivial}
@@ -179,6 +195,7 @@ func Plans() map[string]*Plan {
 				concPart("C08", "S-CONC/lock-heavy", 30000, 3000000, p, RunOpts{}),
 				crashPart("C08", "S-CRASH-RAND", 9000, 900000, p, RunOpts{}),
 				ioConcPart("C08", 8000, 800000, p, RunOpts{}),
+				concPart("C08", "S-CONC/compaction-storm", 12000, 1200000, stormProfile(), RunOpts{}),
 			},
 			Rule: "lock-heavy S-CONC/S-CRASH-RAND (compactions racing Adds and each other); lock-tenure monitor on every create/remove/rename of *.lock; non-trivial = a lock acquisition failed with EEXIST or another process ran inside a compaction's unlocked window; distinct = distinct projected event-sequence hash",
 			Nontrivial: func(r *RunResult) bool {
@@ -212,7 +229,23 @@ func Plans() map[string]*Plan {
 			Parts: []Part{
 				concPart("C10", "S-CONC/readers-vs-churn", 40000, 4000000, p, RunOpts{}),
 				timePart("C10", "S-TIME", 8000, 800000, p, RunOpts{}),
-				ioConcPart("C10", 8000, 800000, p, RunOpts{}),
+				ioConcPart("C10", 16000, 1600000, p, RunOpts{}),
+				concPart("C10", "S-CONC/compaction-storm", 8000, 800000, func() *Profile {
+					// a reader that refreshes through failed Adds (reload with
+					// reader reuse) while the others move the list under it:
+					// compactions below and above the tables it holds, new
+					// tables on top, compactions of those new tables
+					q := stormProfile()
+					q.ForceLocalP = true
+					q.MinOps, q.MaxOps = 4, 9
+					q.RoleW = []map[string]int{
+						{OpRead: 4, OpAdd: 4, OpUpToDate: 1},
+						{OpCompactRange: 8, OpAdd: 6},
+						{OpCompactRange: 8, OpAdd: 6, OpAutoCompact: 1},
+						{OpAdd: 6, OpCompactRange: 4, OpRead: 2},
+					}
+					return q
+				}(), RunOpts{}),
 			},
 			Rule: "reader/reloader processes against 1-3 churn processes (Add, compactions), every ReadAt/open a scheduling point; non-trivial = a reload hit a vanished table or a read ran through a handle that was stale; distinct = distinct projected event-sequence hash",
 			Nontrivial: func(r *RunResult) bool {
@@ -289,6 +322,7 @@ func Plans() map[string]*Plan {
 				turnPart("C16", "S-TURN", 9000, 900000, q, RunOpts{}),
 				ioEnumPart("C16", 300, 30000),
 				ioConcPart("C16", 6000, 600000, p, RunOpts{}),
+				concPart("C16", "S-CONC/compaction-storm", 8000, 800000, stormProfile(), RunOpts{}),
 			},
 			Rule: "S-CONC with failure paths provoked (contended Adds, rejected transactions, lost lock races, empty stacks, Clean/Close in all states), S-CRASH-RAND, S-TURN; residue monitors at every idle point and at quiescence; non-trivial = some operation failed or lost a lock race; distinct = distinct projected event-sequence hash",
 			Nontrivial: func(r *RunResult) bool {
